@@ -352,6 +352,46 @@ theorem C14_root_immutable (H : Bytes → Bytes) (w : World) (ops : List (Nat ×
     | none => rfl
     | some w' => exact step_roots H op.1 w w' op.2 h
 
+/-- a plain whitelist stays a plain whitelist with the same root -/
+theorem step_plain (H : Bytes → Bytes) (now : Nat) (w w' : World) (op : Op) (s : Plain) (hw : w.wl = .plain s)
+    (h : step H now w op = some w') : ∃ s', w'.wl = .plain s' ∧ s'.root = s.root := by
+  have hr := step_roots H now w w' op h
+  cases op with
+  | plain o =>
+    simp only [step, hw, Option.map_eq_some_iff] at h
+    obtain ⟨s', _, rfl⟩ := h
+    refine ⟨s', rfl, ?_⟩
+    simpa [Wl.roots, hw] using hr
+  | tiered o => simp [step, hw] at h
+  | mint sender stage alloc proof =>
+    simp only [step, mint] at h
+    repeat' split at h
+    all_goals simp_all
+    all_goals subst h; exact ⟨s, rfl, rfl⟩
+
+theorem run_plain (H : Bytes → Bytes) (w : World) (ops : List (Nat × Op)) (s : Plain) (hw : w.wl = .plain s) :
+    ∃ s', (run H w ops).wl = .plain s' ∧ s'.root = s.root := by
+  induction ops generalizing w s with
+  | nil => exact ⟨s, hw, rfl⟩
+  | cons op ops ih =>
+    simp only [run, List.foldl_cons] at ih ⊢
+    unfold step'
+    cases h : step H op.1 w op.2 with
+    | none => exact ih w s hw
+    | some w' =>
+      obtain ⟨s1, h1, h2⟩ := step_plain H op.1 w w' op.2 s hw h
+      obtain ⟨s2, h3, h4⟩ := ih w' s1 h1
+      exact ⟨s2, h3, by rw [h4, h2]⟩
+
+/-- consequently the plain whitelist's answers never change: after any history, at any block time, `HasMember`
+answers exactly what it answered right after instantiation (accepted entries stay accepted, nothing else ever becomes
+accepted). -/
+theorem C14_plain_answers_stable (H : Bytes → Bytes) (w : World) (s : Plain) (hw : w.wl = .plain s)
+    (ops : List (Nat × Op)) (now now' : Nat) (m : Bytes) (proof : List (List Nat)) :
+    (run H w ops).wl.hasMember H now m proof = w.wl.hasMember H now' m proof := by
+  obtain ⟨s', h1, h2⟩ := run_plain H w ops s hw
+  simp [Wl.hasMember, h1, hw, Plain.hasMember, h2]
+
 /-! ## the tiered variant -/
 
 /-- **Clause "the tiered variant checks against the root of the currently active stage only"** —
@@ -392,6 +432,16 @@ theorem C14_tiered_active_spec (now : Nat) (stages : List Stage) (i : Nat) (h : 
     rw [e] at this
     simp at this
     exact absurd hc.2 (by have := this hc.1; omega)
+
+/-- completeness of the tiered query: while stage `i` is active, every entry of the list committed at index `i` is
+accepted with its layered proof -/
+theorem C14_tiered_complete (H : Bytes → Bytes) (hH : HashOk H 16) (s : Tiered) (now i j : Nat)
+    (members : List Bytes) (m r : Bytes)
+    (hi : activeIdx now s.stages = some i) (hroot : s.roots[i]? = some (hexEncode r))
+    (hm : members[j]? = some m) (hr : layeredRoot H members = some r) :
+    s.hasMember H now m ((proofAt (treeLayers H (members.map H)) j).map hexEncode) = some true := by
+  rw [C14_tiered_active_root H s now i _ m _ hi hroot]
+  exact C14_layered_complete H 16 hH members j m r hm hr
 
 /-- soundness of the tiered query: a positive answer at time `now` means membership in the **active** stage's list
 (whose tree's root is stored at the active index), or a collision — membership in another stage's list does not help. -/
@@ -471,6 +521,22 @@ theorem C14_mint_sender_bound_plain (H : Bytes → Bytes) (Hlen : ∀ x, (H x).l
       obtain ⟨a, b, c⟩ := e; simp_all
     rw [← this]; exact he
   · right; exact hc
+
+/-- … and this holds in every state reachable from instantiation by any history (the root is still the committed one). -/
+theorem C14_mint_sender_bound_history (H : Bytes → Bytes) (Hlen : ∀ x, (H x).length = 32) (w0 : World) (s0 : Plain)
+    (hw0 : w0.wl = .plain s0) (ops : List (Nat × Op)) (now : Nat) (w' : World)
+    (entries : List (Option Nat × Bytes × Option Nat)) (L : Nat) (r : Bytes)
+    (hr : layeredRoot H (entries.map fun e => leafStr e.1 e.2.1 e.2.2) = some r) (hroot : s0.root = hexEncode r)
+    (hent : ∀ e ∈ entries, e.2.1.length = L ∧ (∃ c r, e.2.1 = c :: r ∧ ¬ isDigit c) ∧
+      (leafStr e.1 e.2.1 e.2.2).length ≠ 64)
+    (sender : Bytes) (stage alloc : Option Nat) (proof : Option (List (List Nat)))
+    (hsl : sender.length = L) (hsd : ∃ c r, sender = c :: r ∧ ¬ isDigit c)
+    (hll : (leafStr stage sender alloc).length ≠ 64)
+    (h : mint H now (run H w0 ops) sender stage alloc proof = some w') :
+    (stage, sender, alloc) ∈ entries ∨ Collision H := by
+  obtain ⟨s', h1, h2⟩ := run_plain H w0 ops s0 hw0
+  exact C14_mint_sender_bound_plain H Hlen now (run H w0 ops) w' s' h1 entries L r hr (by rw [h2, hroot]) hent
+    sender stage alloc proof hsl hsd hll h
 
 /-- the same through the tiered whitelist: the entry must be in the list of the stage that is active **now** -/
 theorem C14_mint_sender_bound_tiered (H : Bytes → Bytes) (Hlen : ∀ x, (H x).length = 16) (now i : Nat) (w w' : World)
